@@ -12,7 +12,7 @@ RECV_DECL = {"ref": "&self", "mut": "&mut self", "own": "self", "pinref": "self:
 ARG_TY = {"none": None, "i64": "i64", "cstruct": "Pt", "ref": "&u64", "mutref": "&mut u64", "slice": "&[u8]",
           "mutslice": "&mut [u8]", "str": "&str", "opt": "Option<u64>", "optnpo": "Option<&u64>", "optptr": "Option<*const u8>",
           "optmut": "Option<&mut u64>", "slice64": "&[u64]", "mutslice64": "&mut [u64]", "slicezst": "&[()]", "optstruct": "Option<Pt>", "rawptr": "*const u8",
-          "result": "Result<u64, u64>", "into": "impl Into<u64>", "callback": "OpaqueCallback<u64>", "iter": "CIterator<u64>",
+          "result": "Result<u64, u64>", "into": "impl Into<u64>", "callback": "OpaqueCallback<u64>", "iter": "CIterator<u64>", "iterq": "CIterator<u64>",
           "aval": "Self::Item", "aref": "&Self::Item", "aslice": "&[Self::Item]", "aopt": "Option<Self::Item>", "ares": "Result<Self::Item, u64>"}
 # Option / Result written as paths (the generator recognises the type by its last segment)
 SPELLED_ARG = {"optabs": ("opt", "::core::option::Option<u64>"), "optstd": ("opt", "std::option::Option<u64>"), "resabs": ("result", "::core::result::Result<u64, u64>")}
@@ -52,6 +52,8 @@ ARG_BODY = {
     "into": "let v: u64 = a.into(); let d = v as i64; log(d);",
     "callback": "let mut a = a; let base = (self.st.get() % 50) as u64; let n = (0..3u64).map(|i| base + i).feed_into_mut(&mut a); let d = n as i64; log(d);",
     "iter": "let d = a.map(|v| v as i64).sum::<i64>(); log(d);",
+    # two batches: read to the end of the first, then poll on (the source is not fused)
+    "iterq": "let mut a = a; let d1 = a.by_ref().map(|v| v as i64).sum::<i64>(); let d2 = a.by_ref().map(|v| v as i64).sum::<i64>(); let d = d1 * 1000 + d2; log(d);",
 }
 ARG_BODY.update({"aval": "let d = (a % 100000) as i64; log(d);", "aref": ARG_BODY["ref"], "aslice": ARG_BODY["slice64"],
                  "aopt": ARG_BODY["opt"], "ares": ARG_BODY["result"]})
@@ -192,6 +194,11 @@ def arg_setup(arg, v):
         return ("let mut got: Vec<u64> = vec![]; let mut ncalls = 0usize; let stop_at = %dusize; let mut cbf = |x: u64| { ncalls += 1; got.push(x); !(stop_at > 0 && ncalls >= stop_at) }; "
                 "let sent_d = if stop_at == 0 { 3 } else { stop_at as i64 }; let sent_addr = 0i64;" % stop,
                 "(&mut cbf).into()", "let post: Vec<i64> = got.iter().map(|&x| x as i64).collect();")
+    if arg == "iterq":
+        val = ["vec![None, Some(3u64)]", "vec![Some(5u64), Some(6), None, Some(7), Some(8)]"][v]
+        sent = ["3i64", "11i64 * 1000 + 15"][v]
+        return ("let mut q: std::collections::VecDeque<Option<u64>> = %s.into_iter().collect(); let sent_d = %s; let sent_addr = 0i64; let mut it = std::iter::from_fn(|| q.pop_front().flatten());" % (val, sent),
+                "(&mut it).into()", "let post: Vec<i64> = vec![];")
     if arg == "iter":
         val = ["vec![]", "vec![5u64, 6, 7]"][v]
         return ("let items: Vec<u64> = %s; let sent_d = items.iter().map(|&x| x as i64).sum::<i64>(); let sent_addr = 0i64; let mut it = items.iter().copied();" % val,
